@@ -16,7 +16,7 @@ LEVEL = 'model_checking'
 RULE = (
     'Every word of the stated lengths over a per-step sample alphabet (grid '
     'levels k*step spelled as float product and as decimal literal, one ulp '
-    'below and above each, off-grid values) x grid steps {1, 0.5, 0.1, 0.3, '
+    'below and above each, values within 2e-6 of a level, off-grid values) x grid steps {1, 0.5, 0.1, 0.3, '
     '2.5} x three abscissa patterns (0,1,2..; UNIX epochs 1.58e9+1800 i; '
     'non-uniform) is passed to the real regrid.regrid and '
     'fit_offsets.build_head_mapping.  Oracle: exact rational [lo, hi) '
@@ -53,6 +53,10 @@ def alphabet(step, tier):
                     vals.append(w)
     for f in (0.4, 1.5, 2.75):
         vals.append(f * step)
+    # close to a level (a few 1e-6 of its number) but not on it
+    for k in (2, 3):
+        vals.append(k * step * (1 + 2e-6))
+        vals.append(k * step * (1 - 2e-6))
     _ALPHA[key] = vals
     return vals
 
@@ -82,7 +86,7 @@ def BOUND(tier):
 def word_space(step, mode, length, tier, reduced=False):
     alpha = alphabet(step, tier)
     if reduced:
-        alpha = alpha[:len(alpha) - 3][::2] + alpha[-1:]
+        alpha = alpha[:len(alpha) - 7][::2] + alpha[-5:]
     size = len(alpha) ** length
 
     def decode(i):
@@ -112,12 +116,22 @@ def run_case(case):
     y = [float(v) for v in case['y']]
     x = abscissae(case['xmode'], len(y))
     viol = []
+    x_arr, y_arr = np.array(x), np.array(y)
     try:
         rep = [(int(n), float(xx)) for n, xx in regrid_mod.regrid(
-            np.array(x), np.array(y), step)]
+            x_arr, y_arr, step)]
+        # the same arrays again: the caller's data must not have been
+        # touched and the answer must not depend on an earlier call
+        again = [(int(n), float(xx)) for n, xx in regrid_mod.regrid(
+            x_arr, y_arr, step)]
     except Exception as exc:  # pylint: disable=broad-except
         return Result(viol=[('crash:' + exc_site(exc), repr(exc)[:300])],
                       nontrivial=True, outcome='exc')
+    if again != rep or list(y_arr) != y or list(x_arr) != x:
+        viol.append(('second-call-differs',
+                     'step=%r y=%r: first call %r, second call on the same '
+                     'arrays %r (arrays afterwards: %r)'
+                     % (step, y, rep[:4], again[:4], list(y_arr))))
     why, n_amb = crossings.compare(x, y, step, rep)
     if why:
         viol.append((why[0], 'step=%r x=%r y=%r: %s' % (step, x, y, why[1])))
